@@ -55,12 +55,25 @@ def run(case):
     w = bytes.fromhex(case["wire"])
     rdclass, rdtype, tname = case["rdclass"], case["rdtype"], case["type"]
     flags = set(case["flags"])
+    pre = []
+    if "prelude_class" in case:
+        # as in C02: every case starts from an empty (class, type) -> implementation cache, and may
+        # first meet the type code under another class, through the text parser
+        cache = getattr(dns.rdata, "_rdata_classes", None)
+        if isinstance(cache, dict):
+            cache.clear()
+        if case["prelude_class"] is not None and case["prelude_class"] != rdclass:
+            try:
+                dns.rdata.from_text(case["prelude_class"], rdtype, "\\# %d %s" % (len(w), w.hex()))
+            except dns.exception.DNSException:
+                pass
+            pre.append("other-class-first")
     try:
         rd = dns.rdata.from_wire(rdclass, rdtype, w, 0, len(w))
     except dns.exception.FormError:
         return {"nontrivial": False, "classes": ["rej:" + tname]}
     w1 = rd.to_wire()
-    classes = ["acc:" + tname]
+    classes = ["acc:" + tname] + pre
     lossy = "text-lossy" in flags
     origin = None if case.get("origin") is None else dns.name.Name(G.unhexl(case["origin"]))
     relativize = bool(case.get("relativize"))
@@ -215,6 +228,7 @@ def cases(draw, types):
     case["origin"] = None if origin is None else G.hexl(origin)
     case["relativize"] = draw(st.booleans())
     case["relativize_to"] = draw(st.sampled_from([None, None, "parent", "parent", "root", "unrelated", "same"]))
+    case["prelude_class"] = draw(st.sampled_from([None, None, None, None, 3, 4, 0xFE00]))
     style = {}
     if draw(st.booleans()):
         style["base64_chunk_size"] = draw(st.sampled_from([0, 1, 4, 32, 57]))
@@ -597,7 +611,7 @@ def run_fieldlimit(case):
 def parts(tier):
     per_type = {"quick": 30, "thorough": 300}[tier]
     req = {("acc:" + t): per_type for t in TEXT_TYPES}
-    req.update({"legacy-keywords": 2000, "relativize_to:parent": 300, "relativize_to:root": 100, "relative-name-printed": 200, "derelativized": 200, "escape": 500, "multi-chunk": 100, "text-lossy": 50})
+    req.update({"other-class-first": 1000, "legacy-keywords": 2000, "relativize_to:parent": 300, "relativize_to:root": 100, "relative-name-printed": 200, "derelativized": 200, "escape": 500, "multi-chunk": 100, "text-lossy": 50})
     n_types = len(TEXT_TYPES)
     return [
         Part("text", run, strategy=cases(TEXT_TYPES), n={"quick": 400 * n_types, "thorough": 5000 * n_types},
